@@ -2,10 +2,10 @@
    Only statements, closed by [exact lemma], with Print Assumptions beneath. *)
 From Coq Require Import String List NArith Bool Permutation.
 From J5V.lib Require Import Outcome.
-From J5V.model Require Import Pipeline PipelineCompile PipelineCorr.
+From J5V.model Require Import Pipeline PipelineCompile PipelineEntity PipelineCorr.
 From J5V.gen Require SwaggerGen.
 From J5V.lib Require Strcase.
-From J5V.proofs Require Import PipelineProofs PipelineStrcaseProofs StrcaseProofs PipelineChainProofs PipelinePathProofs.
+From J5V.proofs Require Import PipelineProofs PipelineStrcaseProofs StrcaseProofs PipelineChainProofs PipelinePathProofs PipelineEntityProofs.
 Import ListNotations.
 Local Open Scope N_scope.
 
@@ -99,6 +99,54 @@ Theorem C16_path_params_name_request_properties : forall (to_snake : str -> str)
     exists p, In p (r_path (fill_request (sm_verb sm) (sm_path sm) (df_req d))) /\ p_json p = n.
 Proof. exact declared_path_params_name_props. Qed.
 Print Assumptions C16_path_params_name_request_properties.
+
+
+(* ---- entities ------------------------------------------------------------------------------------- *)
+(* walkSourceSchemas / includeEntity over the annotated objects of the package, in whatever order Go's map
+   iteration delivers them: when parts are in 1..4, every (entity, part) is annotated once and every entity
+   has its keys, state and event object, it does not fail and every keys / state / event object becomes a
+   walk root *)
+Theorem C16_walk_source_schemas_total : forall anns, wf_anns anns ->
+  exists es, walk_source_schemas anns = Ok es
+    /\ forall a, In a anns -> stored_part (a_part a) -> In (a_key a) (entity_roots es).
+Proof. exact walk_source_schemas_total. Qed.
+Print Assumptions C16_walk_source_schemas_total.
+
+(* every schema reachable from a property of an entity's keys / state / event object is in the client
+   package's schema set *)
+Theorem C16_entity_roots_closed : forall (im : image) (ms : list client_method) ks r s k x,
+  collect_refs im ms = Ok ks ->
+  In r (im_roots im) -> lookup (im_schemas im) r = Some s -> In k (succs s) ->
+  present (im_schemas im) k -> reach (im_schemas im) k x -> present (im_schemas im) x ->
+  In x ks.
+Proof. exact entity_roots_closed. Qed.
+Print Assumptions C16_entity_roots_closed.
+
+(* the chain with entities, PARTIAL: from the method stage on. What an entity expands to on the compiler
+   side (its generated query / command services and their request / response objects) is not in
+   compile_image, so the source and method stages are hypotheses here (they are theorems for declared
+   services: C16_full). *)
+Theorem C16_chain_with_entities_partial : forall im anns api ms,
+  add_structure (im_services im) {| sa_services := []; sa_topics := [] |} = Ok api ->
+  wf_anns anns ->
+  (forall es, walk_source_schemas anns = Ok es -> exists evs, omapM (entity_events (im_schemas im)) es = Ok evs) ->
+  all_refs_link (im_schemas im) = true -> wf_env (im_schemas im) ->
+  (forall es, walk_source_schemas anns = Ok es -> forall k, In k (entity_roots es) -> present (im_schemas im) k) ->
+  methods_from_source true (with_roots im []) api = Ok ms ->
+  Forall wf_client_method ms ->
+  (forall k, In k (flat_map method_roots ms) -> present (im_schemas im) k) ->
+  let r := run_chain_ent current_config im anns in
+  exists es ks,
+    walk_source_schemas anns = Ok es
+    /\ cr_source r = Ok api
+    /\ cr_client r = Ok (ms, ks)
+    /\ (forall x, In x ks <->
+          present (im_schemas im) x /\
+          exists k, In k (root_refs (im_schemas im) (entity_roots es) ++ flat_map method_roots ms)
+                    /\ present (im_schemas im) k /\ reach (im_schemas im) k x)
+    /\ cr_swagger r = Ok tt.
+Proof. exact chain_with_entities. Qed.
+Print Assumptions C16_chain_with_entities_partial.
 
 (* ---- source API: exactly the declared services and methods, declared verb and path ------- *)
 (* buildMethod on what the compiler emits for one method: accepted, verb and path recovered.
@@ -373,3 +421,12 @@ Proof. cbv zeta. split; [vm_compute; reflexivity|]. eexists. split; vm_compute; 
 Example C16_example_swagger :
   wf_ty (TArray (TScalar "timestamp")) /\ convert_ok SwaggerGen.convert_schema_arms (TMap (TScalar "decimal")) = true.
 Proof. split; vm_compute; reflexivity. Qed.
+
+(* two entities whose keys / data / state / event objects arrive in a shuffled order: the hypotheses of
+   C16_walk_source_schemas_total hold and the six keys / state / event objects are the walk roots *)
+Example C16_example_entities :
+  wf_anns ent_ex_anns
+  /\ omap entity_roots (walk_source_schemas ent_ex_anns)
+     = Ok [ (ent_ex_pkg, bytes_of "WidgetKeys"); (ent_ex_pkg, bytes_of "WidgetState"); (ent_ex_pkg, bytes_of "WidgetEvent");
+            (ent_ex_pkg, bytes_of "GadgetKeys"); (ent_ex_pkg, bytes_of "GadgetState"); (ent_ex_pkg, bytes_of "GadgetEvent") ].
+Proof. exact (conj ent_ex_anns_wf ent_ex_anns_result). Qed.
